@@ -115,7 +115,21 @@ func (tree *Tree[T]) Add(pattern string, h T, ms []types.Middleware[T], methods 
 		return err
 	}
 
-	n, err := tree.getNode(pattern)
+	if len(methods) == 0 {
+		methods = AnyMethods
+	}
+
+	segs, err := tree.interceptors.Split(pattern)
+	if err != nil {
+		return err
+	}
+
+	// getNode 会修改树的结构，所以需要在此之前验证 methods，保证出错时没有任何改动。
+	if err := tree.checkMethods(tree.Find(pattern), methods); err != nil {
+		return err
+	}
+
+	n, err := tree.node.getNode(segs)
 	if err != nil {
 		return err
 	}
@@ -124,9 +138,6 @@ func (tree *Tree[T]) Add(pattern string, h T, ms []types.Middleware[T], methods 
 		n.handlers = make(map[string]T, handlersSize)
 	}
 
-	if len(methods) == 0 {
-		methods = AnyMethods
-	}
 	return n.addMethods(h, pattern, ms, methods...)
 }
 
